@@ -115,6 +115,9 @@ def _gen_pix(rng, tier: str, chunk_hint=None) -> dict:
             "u4": rng.choice(E_UNITS), "signal": rng.choice(C_UNITS),
         },
         "extra_coord": rng.random() < 0.2,
+        # memory layout of what the caller hands over: own buffers, a window into longer
+        # buffers (offset view), or one column of a 2-d array (strided, non-contiguous view)
+        "layout": rng.choice(["plain", "plain", "slice", "strided"]),
     }
 
 
@@ -250,6 +253,9 @@ def generate(rng, tier: str, i: int, prop: str) -> dict:
         "default_chunk": rng.random() < 0.15,
         "permute_seed": rng.randrange(1 << 30) if len(calls) > 1 and rng.random() < 0.5 else None,
         "recreate": sink == "path" and rng.random() < 0.3,
+        # str or pathlib target; something else already at the path (shorter, longer, empty)
+        "path_as": rng.choice(["Path", "str"]),
+        "preexist": rng.choice([None, None, 0, 10, 1 << 20]) if sink == "path" else None,
         "reuse_builder": rng.random() < 0.35,
         # another builder in the same process whose create() must fail on invalid CONTENT (checked
         # only when the blocks are serialised), before the program under test runs
@@ -319,7 +325,17 @@ def make_pixels(sc, p: dict):
         coords["extra"] = sc.array(dims=["obs"], values=g.uniform(0, 1, n), unit="s")
     data = sc.array(dims=["obs"], values=vals(0, 1000), variances=np.abs(vals(0.1, 30)).astype(vd),
                     unit=u["signal"])
+    how = p.get("layout", "plain")
+    if how != "plain" and n > 0:
+        coords = {k: _embed(sc, v, how) for k, v in coords.items()}
+        data = _embed(sc, data, how)
     return sc.DataArray(data, coords=coords)
+
+
+def _embed(sc, var, how):
+    from .. import layouts
+
+    return layouts.embed(var, "obs", how)
 
 
 def make_experiment(sc, sqw, e: dict):
@@ -544,7 +560,10 @@ class SqwEngine(Engine):
         p = Path(scn["fname"])
         if p.parent != Path("."):
             p.parent.mkdir(parents=True, exist_ok=True)
-        return p
+        if scn.get("preexist") is not None and not p.exists():
+            p.write_bytes(b"\xa5" * scn["preexist"])
+            ctx.probe("target_path_existed_before")
+        return str(p) if scn.get("path_as") == "str" else p
 
     def _create(self, scn, ctx, sink, calls=None, label="create", keep=None):
         """Build + create().  Returns ExcInfo|None.  Fresh inputs every time; with ``keep`` (a dict)
@@ -1566,6 +1585,14 @@ def _shrink(self, scn, violation=None):
             c = copy.deepcopy(s)
             c[key] = None if key == "permute_seed" else False
             yield c
+    if s.get("preexist") is not None:
+        c = copy.deepcopy(s)
+        c["preexist"] = None
+        yield c
+    if s.get("path_as") == "str":
+        c = copy.deepcopy(s)
+        c["path_as"] = "Path"
+        yield c
     # 2. calls
     n = len(s["calls"])
     for k in range(n):
@@ -1583,7 +1610,7 @@ def _shrink(self, scn, violation=None):
         yield c
     if s["sink"] == "path" and s["faults"]["mode"] == "none":
         c = copy.deepcopy(s)
-        c["sink"], c["fname"], c["recreate"] = "mem", None, False
+        c["sink"], c["fname"], c["recreate"], c["preexist"] = "mem", None, False, None
         yield c
     if s["sink"] == "path" and s["fname"] != "f.sqw":
         c = copy.deepcopy(s)
@@ -1612,6 +1639,10 @@ def _shrink(self, scn, violation=None):
             if p["vdtype"] != "float64" or p["idtype"] != "int64" or p["dist"] != "ints" or p.get("extra_coord"):
                 c = copy.deepcopy(s)
                 c["calls"][k]["pix"].update(vdtype="float64", idtype="int64", dist="ints", extra_coord=False)
+                yield c
+            if p.get("layout", "plain") != "plain":
+                c = copy.deepcopy(s)
+                c["calls"][k]["pix"]["layout"] = "plain"
                 yield c
             canon = {"u1": "1/angstrom", "u2": "1/angstrom", "u3": "1/angstrom", "u4": "meV", "signal": "count"}
             if p["units"] != canon:
